@@ -81,6 +81,8 @@ pub uninterp spec fn body_v_spec(a: Vec<u32>, b: Vec<u32>) -> u64;
 #[verifier::external_body] pub fn body_v(a: Vec<u32>, b: Vec<u32>) -> (r: u64) ensures r == body_v_spec(a, b) { unimplemented!() }
 pub uninterp spec fn body_t_spec(p: (u32, u32), c: u32) -> u64;
 #[verifier::external_body] pub fn body_t(p: (u32, u32), c: u32) -> (r: u64) ensures r == body_t_spec(p, c) { unimplemented!() }
+pub uninterp spec fn body_res_path_spec(a: u32) -> Result<u64, std::fmt::Error>;
+#[verifier::external_body] pub fn body_res_path(a: u32) -> (r: Result<u64, std::fmt::Error>) ensures r == body_res_path_spec(a) { unimplemented!() }
 pub uninterp spec fn body_res_spec(a: u32) -> Result<u64, String>;
 #[verifier::external_body] pub fn body_res(a: u32) -> (r: Result<u64, String>) ensures r == body_res_spec(a) { unimplemented!() }
 pub uninterp spec fn keep_spec(k: String, v: u64) -> bool;
@@ -171,7 +173,7 @@ pub broadcast proof fn b_rm_seq_empty(q: Seq<String>, ks: Seq<String>)
 pub broadcast group group_cb { b_rm_seq_step, b_rm_seq_empty }
 ''')
 
-BODY_SPEC = {'body1(a)': 'body1_spec(a)', 'body5(a, b, c, d, e)': 'body5_spec(a, b, c, d, e)', 'body3(a, b, c)': 'body3_spec(a, b, c)', 'body_v(a, b)': 'body_v_spec(a, b)', 'body_t((x, y), c)': 'body_t_spec(p0, c)',
+BODY_SPEC = {'body1(a)': 'body1_spec(a)', 'body_res_path(a)': 'body_res_path_spec(a)', 'body5(a, b, c, d, e)': 'body5_spec(a, b, c, d, e)', 'body3(a, b, c)': 'body3_spec(a, b, c)', 'body_v(a, b)': 'body_v_spec(a, b)', 'body_t((x, y), c)': 'body_t_spec(p0, c)',
              'body2(a, b)': 'body2_spec(a, b)', 'body_res(a)': 'body_res_spec(a)', '0': '0u64'}
 HINT = (('fn_start',), 'wrap_axioms', 'broadcast use group_wrap;')
 
